@@ -17,7 +17,7 @@ CHUNK = 8
 
 def cases(tier, seed):
     for c in c07.cases(tier, seed):
-        if c["k"] == "write":
+        if c["k"] in ("write", "frag"):
             yield c
     # fill histories: k-granule files until the disk is full (the images on the way are checked)
     for k in (1, 2, 3, 5, 9, 17, 34):
@@ -30,10 +30,14 @@ def check_case(case):
     res = {"nontrivial": True, "outcome": "ok", "transitions": 1}
     viol = []
     images = []
-    if case["k"] == "write":
+    if case["k"] in ("write", "frag"):
         cell = c07.cell_of(case)
         try:
-            images.append((cell, c07.build_image(case), case["files"]))
+            if case["k"] == "frag":
+                img, specs = c07.build_frag(case)
+                images.append((cell, img, specs))
+            else:
+                images.append((cell, c07.build_image(case), case["files"]))
         except Exception as e:
             res.update(state="writer-error", outcome="writer-error")
             return res       # reported by C07 / C15
